@@ -80,6 +80,9 @@ func NewSigner(conf SignerConfig) (*Signer, error) {
 
 // Sign makes a signing request against Crypki Server.
 func (s *Signer) Sign(ctx context.Context, request *pb.SSHCertificateSigningRequest) (certs []ssh.PublicKey, comments []string, err error) {
+	if len(s.endpoints) == 0 {
+		return nil, nil, fmt.Errorf("no crypki endpoint is configured")
+	}
 	for _, endpoint := range s.endpoints {
 		certs, comments, err = s.postUserSSHCertificate(ctx, request, endpoint)
 		if err == nil {
